@@ -310,7 +310,7 @@ def b_nan(ctx):
     from contracts.rainflow_bounded import make, run, signals
     from specs.rainflow_spec import TP
     A, N = (3, 5) if ctx.tier == 'quick' else (3, 7)
-    ctx.bound = f"all signals over {{0,1,2}} of length 3..{N} x every placement of 1 or 2 NaN samples strictly inside, in one piece and split into two chunks at every position"
+    ctx.bound = f"all signals over {{0,1,2}} of length 3..{N} x every placement of 1 or 2 (for length <= 5: up to 4) NaN samples strictly inside, bursts of adjacent NaNs included, in one piece and split into two chunks at every position"
     ctx.rule = "non-trivial: cleaned signal has a turning point"
     ctx.exhaustive = True
     import itertools
@@ -318,8 +318,12 @@ def b_nan(ctx):
         if not ctx.mine():
             continue
         x = [float(v) for v in s]
-        for cnt in (1, 2):
-            for poss in itertools.combinations(range(1, len(x)), cnt):
+        # 1 to 4 NaN samples; the same insertion point may be used repeatedly (bursts of adjacent NaNs) - added after seed C03-e vectorised the index correction in a
+        # way that is exact only when at most two NaNs precede a reversal closely
+        for cnt in (1, 2, 3, 4):
+            if cnt >= 3 and len(x) > 5:
+                continue
+            for poss in itertools.combinations_with_replacement(range(1, len(x)), cnt):
                 y = list(x)
                 for off, p in enumerate(poss):
                     y.insert(p + off, float('nan'))
